@@ -125,6 +125,10 @@ def plans():
         {'name': 'valued_overlap_respelled', 'schema': 'valued', 'model': False, 'bound': 2, 'random': overlap_runs,
          'opt': {'spell_attr': True}},
         {'name': 'unknown_type', 'schema': 'unknown_type', 'model': False, 'bound': 1, 'random': unknown_runs},
+    ] + [
+        # type names that only resemble a core type (INT, BOOL, ID, Bool, INTEGERS ...) are unknown types as well
+        {'name': 'unknown_type_%s' % t, 'schema': 'unknown_type_%d' % k, 'model': False, 'bound': 1, 'random': unknown_runs}
+        for k, t in enumerate(schemas.NEAR_TYPES)
     ]
 
 
